@@ -3,6 +3,7 @@
 Real ResourceManager on a real Environment.  Operation kinds are concrete per analysis,
 amounts / capacities / durations symbolic:
   W0/W1/W2  register a waiter {a: x, b: y}; callback logs / reserves inside / registers another waiter
+  W3/W4     callback releases a live reservation / adds one unit of capacity (from inside the check)
   Aa/Ab     add_resources(name, amount)            (amount may be negative, not below zero capacity)
   R         reserve_resources({a: x, b: y}), kept if granted
   F0/F1     release reservation 0 / 1 if it exists
@@ -35,6 +36,7 @@ def _params(seq):
             ps += [[f'x{i}', 0, AMOUNT]]
             if k.endswith('ab'):
                 ps += [[f'y{i}', 0, AMOUNT]]
+            # suffix b: the single entry is for resource b
         elif k[0] == 'A':
             ps += [[f'x{i}', -AMOUNT, AMOUNT]]
         elif k == 'V':
@@ -68,6 +70,8 @@ def _seqs(tier):
     picked = [['Rab', 'W0ab', 'F0', 'V'], ['W0ab', 'W0ab', 'V'], ['W1ab', 'W0ab', 'Aa', 'V'], ['Rab', 'W0ab', 'Aa', 'Ab', 'V'],
               ['R', 'W0', 'W0', 'F0', 'V'], ['R', 'W1', 'W0', 'F0', 'V'], ['R', 'W0', 'W1', 'W0', 'F0', 'V'],
               ['R', 'W2', 'F0', 'V', 'Aa', 'V'], ['R', 'W0', 'V', 'F0', 'V']]
+    # a callback that frees resources from inside the check makes an earlier, already skipped waiter feasible
+    picked += [['R', 'Rb', 'W0', 'W3b', 'F1', 'V', 'V'], ['R', 'W0', 'W4b', 'Ab', 'V'], ['R', 'Rb', 'W0', 'W3b', 'F1', 'V', 'W0', 'V']]
     if tier == 'thorough':
         picked += [['R', 'R', 'W0', 'W0', 'F0', 'F1', 'V'], ['R', 'W1', 'W1', 'F0', 'Z', 'F0', 'V'],
                    ['Rab', 'W0ab', 'W0ab', 'F0', 'V'], ['Rab', 'W1ab', 'W0ab', 'F0', 'V']]
@@ -93,7 +97,8 @@ def bounds_text(tier):
 
 def required_goals(tier):
     return ['waiter_served', 'waiter_served_after_release', 'waiter_served_after_capacity_increase', 'waiter_skipped_infeasible',
-            'two_served_in_one_check', 'reserve_inside_blocks_successor', 'registered_during_scan', 'waiter_still_waiting_at_advance']
+            'two_served_in_one_check', 'reserve_inside_blocks_successor', 'registered_during_scan', 'waiter_still_waiting_at_advance',
+            'released_inside_callback', 'capacity_added_inside_callback']
 
 
 def signature(f):
@@ -154,6 +159,15 @@ def run(shape, args, ctx):
             elif w.kind == 2:
                 ctx.goal('registered_during_scan')
                 register(0, request['a'], request['b'], w.tag + "'")
+            elif w.kind == 3:
+                # the callback gives something back: an earlier, skipped waiter may now fit
+                live = [r for r in held if r.reserved_resources]
+                if live:
+                    ctx.goal('released_inside_callback')
+                    live[0].release()
+            elif w.kind == 4:
+                ctx.goal('capacity_added_inside_callback')
+                manager.add_resources('a', 1)
             w.pool_after = pool()
         rm.reserve_resources_with_callback(w.user_dict, callback)
         # the caller keeps using its dict: the manager must have copied it
@@ -223,7 +237,10 @@ def run(shape, args, ctx):
         if k[0] in 'AF':
             state['last_op'] = k
         if k[0] == 'W':
-            register(int(k[1]), args[f'x{i}'], args.get(f'y{i}', 0), f'w{i}')
+            if k.endswith('b') and not k.endswith('ab'):
+                register(int(k[1]), 0, args[f'x{i}'], f'w{i}')
+            else:
+                register(int(k[1]), args[f'x{i}'], args.get(f'y{i}', 0), f'w{i}')
         elif k[0] == 'A':
             name = 'a' if k == 'Aa' else 'b'
             try:
@@ -231,7 +248,10 @@ def run(shape, args, ctx):
             except ValueError:
                 pass
         elif k[0] == 'R':
-            r = rm.reserve_resources({'a': args[f'x{i}'], 'b': args.get(f'y{i}', 0)})
+            if k == 'Rb':
+                r = rm.reserve_resources({'a': 0, 'b': args[f'x{i}']})
+            else:
+                r = rm.reserve_resources({'a': args[f'x{i}'], 'b': args.get(f'y{i}', 0)})
             if r is not None:
                 held.append(r)
         elif k in ('F0', 'F1'):
